@@ -31,7 +31,15 @@ ExpCarets(t, g) == Sorted({OtR4(v) : v \in Rng(G(t, g).carets)})
 ObsCarets(t, g) == LET S == {k \in 1..Len(t.F.gdef.carets) : t.F.gdef.carets[k][1] = g}
                    IN IF S = {} THEN <<>> ELSE LET c == t.F.gdef.carets[CHOOSE k \in S : TRUE][2]
                                                IN [k \in 1..Len(c) |-> c[k][2]]
-CaretsOK(t) == t.userDefinesCarets \/ \A g \in Exported(t) : ObsCarets(t, g) = ExpCarets(t, g)
+\* (a static build stores each position once; a variable build keeps coinciding carets apart, since they may differ elsewhere in
+\*  the design space: both are the anchors' coordinates in increasing order)
+NonDecreasing(s) == \A k \in 1..(Len(s) - 1) : s[k] <= s[k + 1]
+CaretsOK(t) == t.userDefinesCarets \/ \A g \in Exported(t) :
+                 LET o == ObsCarets(t, g)  e == ExpCarets(t, g) IN
+                 \/ o = e
+                 \/ (NonDecreasing(o) /\ Rng(o) = Rng(e) /\ Len(o) <= Len(G(t, g).carets))
+                 \* away from the default location of a variable font the records keep the default's order while their values move
+                 \/ ("orderFree" \in DOMAIN t /\ t.orderFree /\ Rng(o) = Rng(e) /\ Len(o) <= Len(G(t, g).carets))
 
 \* cursive: all records of glyph g in curs lookups: {<<rtlFlag, entry, exit>>}
 CursLookups(t) == {li \in 0..(Len(t.F.gpos.lookups) - 1) : t.F.gpos.lookups[li + 1].type = 3}
